@@ -5,35 +5,51 @@
     [SmtParse.parse_expr_toks] / [run] (the token stack machine) with the builders of
     [Context]; the writer is [SmtSer.ser] (C05).  [rt e mb] is the expression the reader
     builds from the writer's output of [e]; [equiv] = well-typed, same type, same value
-    under every well-formed assignment. *)
-From Patronus Require Import SmtParse SmtParseLemmas SmtParseProofs SmtRoundTrip SmtLexProofs SmtValueProofs SmtCmdRoundTrip.
+    under every well-formed assignment.
+
+    The model has two variants ([SmtSer.variant]): [Cur] mirrors /repo as it is, [Fix] mirrors
+    /repo with patches/0003..0015 applied.  Theorems that hold for both are stated for every
+    [v]; the recorded defects are [_refuted] theorems (and [C14_truncated_panics]) about [Cur];
+    the full-strength statements are theorems about [Fix].  The driver's constant
+    [code_variant] says which variant the checked code is. *)
+From Patronus Require Import SmtParse SmtParseLemmas SmtParseProofs SmtRoundTrip SmtLexProofs SmtValueProofs SmtCmdRoundTrip SmtFixProofs.
 Open Scope string_scope.
 Open Scope list_scope.
 Open Scope N_scope.
 
 (** Round trip: reading the tokens the writer produces for a well-typed expression (built by
     the public constructors, indices below 2^32, symbol table = the symbols of the
-    expression, keys neither theory names nor numerals) gives an equivalent expression. *)
+    expression, keys not theory names; current code: keys not numerals, [_], [as] either) gives
+    an equivalent expression. *)
 Theorem C14_parse_ser :
-  forall (top : symtab) (e : expr) (mb : bool),
-    wt e = true -> built e = true -> idx32 e = true -> table_for top e ->
-    parse_expr_toks top (toks_of_sx (ser e mb)) = POk (rt e mb) /\ equiv e (rt e mb).
+  forall (v : variant) (top : symtab) (e : expr) (mb : bool),
+    wt e = true -> built e = true -> idx32 e = true -> table_for v top e ->
+    parse_expr_toks v top (toks_of_sx (ser v e mb)) = POk (rt e mb) /\ equiv e (rt e mb).
 Proof. exact parse_ser_lemma. Qed.
 Print Assumptions C14_parse_ser.
+
+(** Repaired code (patches/0013): no condition on numerals; the only keys excluded are names no
+    writer can write or that a theory owns. *)
+Theorem C14_parse_ser_fix :
+  forall (top : symtab) (e : expr) (mb : bool),
+    wt e = true -> built e = true -> idx32 e = true -> table_for_fix top e ->
+    parse_expr_toks Fix top (toks_of_sx (ser Fix e mb)) = POk (rt e mb) /\ equiv e (rt e mb).
+Proof. exact parse_ser_fix. Qed.
+Print Assumptions C14_parse_ser_fix.
 
 (** The same at the level of characters: the canonical text of the writer's tokens (every
     token followed by one space) goes through the lexer and the machine. *)
 Theorem C14_parse_ser_text :
-  forall (top : symtab) (e : expr) (mb : bool),
-    wt e = true -> built e = true -> idx32 e = true -> table_for top e ->
-    parse_expr_str top (render (flatten (ser e mb))) = POk (rt e mb) /\ equiv e (rt e mb).
+  forall (v : variant) (top : symtab) (e : expr) (mb : bool),
+    wt e = true -> built e = true -> idx32 e = true -> table_for v top e ->
+    parse_expr_str v top (render (flatten (ser v e mb))) = POk (rt e mb) /\ equiv e (rt e mb).
 Proof. exact parse_ser_text_lemma. Qed.
 Print Assumptions C14_parse_ser_text.
 
 (** lex_print: the lexer returns the printed tokens (plain tokens without delimiters, well-formed
     |quoted| symbols, parentheses). *)
 Theorem C14_lex_print :
-  forall ts : list stok, forallb stok_lexable ts = true -> lex_impl (render ts) = map ltok_of ts.
+  forall (v : variant) (ts : list stok), forallb stok_lexable ts = true -> lex_impl v (render ts) = map ltok_of ts.
 Proof. exact lex_print. Qed.
 Print Assumptions C14_lex_print.
 
@@ -42,9 +58,9 @@ Print Assumptions C14_lex_print.
     single-binding [let]s with fresh plain names), whatever the reference evaluator says the text
     denotes, the reader returns an expression that denotes it. *)
 Theorem C14_value_parse :
-  forall (m : mval) (v : sval),
-    mv_wf [] m -> seval (fun _ => None) (mv_sx m) = Some v ->
-    exists e, parse_expr_toks [] (toks_of_sx (mv_sx m)) = POk e /\ ir_matches e v.
+  forall (v : variant) (m : mval) (x : sval),
+    mv_wf v [] m -> seval (fun _ => None) (mv_sx m) = Some x ->
+    exists e, parse_expr_toks v [] (toks_of_sx (mv_sx m)) = POk e /\ ir_matches e x.
 Proof. exact value_parse_lemma. Qed.
 Print Assumptions C14_value_parse.
 
@@ -52,92 +68,180 @@ Print Assumptions C14_value_parse.
     what it computes is the bottom-up evaluation [sxi] (single tokens by
     [early_parse_single_token] / symbol lookup, groups by [parse_pattern]). *)
 Theorem C14_machine_sx :
-  forall (st : nst) (t : sx) (it : pitem),
-    sxi st t = POk it -> runs_to st (toks_of_sx t) it /\ plain_item it = true.
+  forall (v : variant) (st : nst) (t : sx) (it : pitem),
+    sxi v st t = POk it -> runs_to v st (toks_of_sx t) it /\ plain_item it = true.
 Proof. exact machine_sx. Qed.
 Print Assumptions C14_machine_sx.
 
-(** Commands: declare-const, define-fun, assert, get-value, check-sat-assuming with exactly one
-    assumption, push, pop, set-logic, set-option, exit, check-sat are read back by
-    [parse_command] as the same command ([rt_cmd]: expressions replaced by the equivalent
-    expression of [C14_parse_ser]). *)
+(** Commands: what the writer emits is read back by [parse_command] as the same command ([rt_cmd]:
+    expressions replaced by the equivalent expression of [C14_parse_ser]).  [cmd_rt_pre v] says
+    which: in the current code not set-info, get-unsat-assumptions, check-sat-assuming with a
+    number of assumptions other than one. *)
 Theorem C14_parse_cmd_ser :
-  forall (top : symtab) (c : smt_cmd) (t : sx),
-    cmd_rt_pre top c -> ser_cmd c = Ok t -> parse_command_toks top (toks_of_sx t) = POk (rt_cmd c).
+  forall (v : variant) (top : symtab) (c : smt_cmd) (t : sx),
+    cmd_rt_pre v top c -> ser_cmd v c = Ok t -> parse_command_toks v top (toks_of_sx t) = POk (rt_cmd c).
 Proof. exact parse_cmd_ser_lemma. Qed.
 Print Assumptions C14_parse_cmd_ser.
 
-(** ... the other commands the writer emits are NOT read back (recorded defects): more or fewer
-    than one assumption, get-unsat-assumptions, set-info (read as set-option). *)
+(** Repaired code (patches/0011, 0012, 0015): EVERY command of the writer is read back; the
+    conditions left in [cmd_rt_pre Fix] are those on the expressions and names inside. *)
+Theorem C14_parse_cmd_ser_fix :
+  forall (top : symtab) (c : smt_cmd) (t : sx),
+    cmd_rt_pre Fix top c -> ser_cmd Fix c = Ok t -> parse_command_toks Fix top (toks_of_sx t) = POk (rt_cmd c).
+Proof. exact parse_cmd_ser_fix. Qed.
+Print Assumptions C14_parse_cmd_ser_fix.
+
+Theorem C14_cmd_read_back_fix :
+  (exists t, ser_cmd Fix (CCheckSatAssuming [BVSymbol "a" 1; BVSymbol "b" 1]) = Ok t /\
+             parse_command_toks Fix [("a", BVSymbol "a" 1); ("b", BVSymbol "b" 1)] (toks_of_sx t) =
+             POk (CCheckSatAssuming [BVSymbol "a" 1; BVSymbol "b" 1])) /\
+  (exists t, ser_cmd Fix (CCheckSatAssuming []) = Ok t /\ parse_command_toks Fix [] (toks_of_sx t) = POk (CCheckSatAssuming [])) /\
+  (exists t, ser_cmd Fix CGetUnsatAssumptions = Ok t /\ parse_command_toks Fix [] (toks_of_sx t) = POk CGetUnsatAssumptions) /\
+  (exists t, ser_cmd Fix (CSetInfo "status" "sat") = Ok t /\ parse_command_toks Fix [] (toks_of_sx t) = POk (CSetInfo "status" "sat")).
+Proof. exact cmd_read_back_fix_witness. Qed.
+Print Assumptions C14_cmd_read_back_fix.
+
+(** ... in the current code the other commands the writer emits are NOT read back (recorded
+    defects): more or fewer than one assumption, get-unsat-assumptions, set-info (read as set-option). *)
 Theorem C14_cmd_not_read_back_refuted :
-  (exists t, ser_cmd (CCheckSatAssuming [BVSymbol "a" 1; BVSymbol "b" 1]) = Ok t /\
-             parse_command_toks [("a", BVSymbol "a" 1); ("b", BVSymbol "b" 1)] (toks_of_sx t) = PErr) /\
-  (exists t, ser_cmd (CCheckSatAssuming []) = Ok t /\ parse_command_toks [] (toks_of_sx t) = PErr) /\
-  (exists t, ser_cmd CGetUnsatAssumptions = Ok t /\ parse_command_toks [] (toks_of_sx t) = PErr) /\
-  (exists t, ser_cmd (CSetInfo "status" "sat") = Ok t /\ parse_command_toks [] (toks_of_sx t) = POk (CSetOption "status" "sat")).
+  (exists t, ser_cmd Cur (CCheckSatAssuming [BVSymbol "a" 1; BVSymbol "b" 1]) = Ok t /\
+             parse_command_toks Cur [("a", BVSymbol "a" 1); ("b", BVSymbol "b" 1)] (toks_of_sx t) = PErr) /\
+  (exists t, ser_cmd Cur (CCheckSatAssuming []) = Ok t /\ parse_command_toks Cur [] (toks_of_sx t) = PErr) /\
+  (exists t, ser_cmd Cur CGetUnsatAssumptions = Ok t /\ parse_command_toks Cur [] (toks_of_sx t) = PErr) /\
+  (exists t, ser_cmd Cur (CSetInfo "status" "sat") = Ok t /\ parse_command_toks Cur [] (toks_of_sx t) = POk (CSetOption "status" "sat")).
 Proof. exact cmd_not_read_back_witness. Qed.
 Print Assumptions C14_cmd_not_read_back_refuted.
 
-(** Recorded defect: the hypothesis "no key of the symbol table is a numeral" of the round trip
-    cannot be dropped. *)
+(** Recorded defect of the current code: the hypothesis "no key of the symbol table is a numeral"
+    of the round trip cannot be dropped; in the repaired code the same input round-trips. *)
 Theorem C14_numeral_symbol_refuted :
   let e := BVSlice (BVSymbol "x" 8) 3 0 in
   let top := [("x", BVSymbol "x" 8); ("3", BVSymbol "3" 1)] in
-  wt e = true /\ built e = true /\ parse_expr_toks top (toks_of_sx (ser e false)) = PErr.
+  wt e = true /\ built e = true /\ parse_expr_toks Cur top (toks_of_sx (ser Cur e false)) = PErr.
 Proof. exact numeral_symbol_witness. Qed.
 Print Assumptions C14_numeral_symbol_refuted.
 
-(** malformed_is_error is REFUTED by the model (and by the implementation): every proper
-    prefix, in tokens, of the writer's output makes the reader panic ([todo!] at
-    parser.rs:247) instead of returning an error ... *)
+Theorem C14_numeral_symbol_fix :
+  let e := BVSlice (BVSymbol "x" 8) 3 0 in
+  let top := [("x", BVSymbol "x" 8); ("3", BVSymbol "3" 1)] in
+  parse_expr_toks Fix top (toks_of_sx (ser Fix e false)) = POk e.
+Proof. exact numeral_symbol_fix_witness. Qed.
+Print Assumptions C14_numeral_symbol_fix.
+
+(** malformed_is_error, repaired code (patches/0004): every proper prefix, in tokens, of the
+    writer's output is reported as an error ... *)
+Theorem C14_malformed_is_error :
+  forall (top : symtab) (e : expr) (mb : bool) (p q : list ltok),
+    wt e = true -> built e = true -> idx32 e = true -> table_for Fix top e ->
+    toks_of_sx (ser Fix e mb) = p ++ q -> q <> [] ->
+    parse_expr_toks Fix top p = PErr.
+Proof. exact truncated_is_error_fix. Qed.
+Print Assumptions C14_malformed_is_error.
+
+(** ... on EVERY text the repaired lexer (patches/0005, 0006) produces no panic ... *)
+Theorem C14_lexer_never_panics :
+  forall s : string, ~ In TkLexPanic (lex_impl Fix s).
+Proof. exact lex_fix_no_panic. Qed.
+Print Assumptions C14_lexer_never_panics.
+
+(** ... and on EVERY text the only panic left in [parse_expr] (patches/0004, 0008) is a debug
+    assertion of a builder of [Context] at a closing parenthesis: the machine has consumed [pre],
+    is in the state [(stk, st)], and reducing the innermost open group panics in [parse_pattern]
+    (or the let-scope stack is empty).  This is the finding that is NOT patched. *)
+Theorem C14_malformed_panics_only_in_builders :
+  forall (top : symtab) (s : string),
+    parse_expr_str Fix top s = PPanic ->
+    exists pre post stk st o,
+      lex_impl Fix s = pre ++ TkClose :: post /\
+      run_state Fix pre [] (nst_new top) false = inr (stk, st, o) /\ builder_panic stk st.
+Proof. exact parse_expr_fix_panic. Qed.
+Print Assumptions C14_malformed_panics_only_in_builders.
+
+Theorem C14_builder_assertion_refuted :
+  parse_expr_str Fix [] "(bvadd (concat #b01 #b1) #b01)" = PPanic /\
+  parse_expr_str Cur [] "(bvadd (concat #b01 #b1) #b01)" = PPanic.
+Proof. exact builder_panic_witness. Qed.
+Print Assumptions C14_builder_assertion_refuted.
+
+(** read_command, repaired code (patches/0003, 0009, 0010): never waits at the end of the input,
+    panics only if [parse_command] does. *)
+Theorem C14_read_command_no_hang :
+  forall (top : symtab) (lines : list string), read_command Fix top lines <> RcHang.
+Proof. exact read_command_fix_no_hang. Qed.
+Print Assumptions C14_read_command_no_hang.
+
+Theorem C14_read_command_panic_only_in_parser :
+  forall (top : symtab) (lines : list string),
+    read_command Fix top lines = RcPanic -> exists cmd, parse_command_str Fix top cmd = PPanic.
+Proof. exact read_command_fix_panic. Qed.
+Print Assumptions C14_read_command_panic_only_in_parser.
+
+(** malformed_is_error is REFUTED for the current code: every proper prefix, in tokens, of the
+    writer's output makes the reader panic ([todo!] at parser.rs:247) instead of returning an error ... *)
 Theorem C14_truncated_panics :
   forall (top : symtab) (e : expr) (mb : bool) (p q : list ltok),
-    wt e = true -> built e = true -> idx32 e = true -> table_for top e ->
-    toks_of_sx (ser e mb) = p ++ q -> q <> [] ->
-    parse_expr_toks top p = PPanic.
+    wt e = true -> built e = true -> idx32 e = true -> table_for Cur top e ->
+    toks_of_sx (ser Cur e mb) = p ++ q -> q <> [] ->
+    parse_expr_toks Cur top p = PPanic.
 Proof. exact truncated_panics_lemma. Qed.
 Print Assumptions C14_truncated_panics.
 
 (** ... the concrete failing input of DESIGN (characters, through the lexer) *)
 Theorem C14_malformed_is_error_refuted :
-  exists s : string, parse_expr_str [] s = PPanic.
+  exists s : string, parse_expr_str Cur [] s = PPanic.
 Proof. exact malformed_witness. Qed.
 Print Assumptions C14_malformed_is_error_refuted.
 
-(** What does hold for malformed variants: a token after the writer's complete output is
+(** What holds for malformed variants in both: a token after the writer's complete output is
     reported as an error (never a value). *)
 Theorem C14_trailing_token_error :
-  forall (top : symtab) (e : expr) (mb : bool) (t : ltok) (q : list ltok),
-    wt e = true -> built e = true -> idx32 e = true -> table_for top e ->
+  forall (v : variant) (top : symtab) (e : expr) (mb : bool) (t : ltok) (q : list ltok),
+    wt e = true -> built e = true -> idx32 e = true -> table_for v top e ->
     t <> TkComment -> t <> TkLexPanic ->
-    parse_expr_toks top (toks_of_sx (ser e mb) ++ t :: q) = PErr.
+    parse_expr_toks v top (toks_of_sx (ser v e mb) ++ t :: q) = PErr.
 Proof. exact trailing_token_error_lemma. Qed.
 Print Assumptions C14_trailing_token_error.
 
-(** Recorded defects of the lexer and of read_command, as concrete witnesses in the model
+(** Recorded defects of the current lexer and read_command, as concrete witnesses in the model
     (each reproduced on the real code by the check): an empty comment line, a |quoted symbol
     open at the end of the input, read_command waiting for a closing parenthesis at the end
     of the input, a command swallowed after a symbol named "(". *)
 Theorem C14_lexer_panics_refuted :
-  parse_expr_str [] "true ;
-" = PPanic /\ parse_expr_str [] "(bvnot |a" = PPanic.
+  parse_expr_str Cur [] "true ;
+" = PPanic /\ parse_expr_str Cur [] "(bvnot |a" = PPanic.
 Proof. exact lexer_panics_witness. Qed.
 Print Assumptions C14_lexer_panics_refuted.
 
 Theorem C14_read_command_refuted :
-  read_command [] ["(assert (= a"] = RcHang /\
+  read_command Cur [] ["(assert (= a"] = RcHang /\
   (exists c top' rest,
-      read_command [] ["(declare-const |(| Bool)
+      read_command Cur [] ["(declare-const |(| Bool)
 "; "(exit)
 "; ")
 "] = RcCmd c top' rest /\ rest = []) /\
-  read_command [] ["(declare-const |(| Bool)
+  read_command Cur [] ["(declare-const |(| Bool)
 "; "(exit)
 "] = RcHang /\
-  read_command [] ["(get-unsat-assumptions)
+  read_command Cur [] ["(get-unsat-assumptions)
 "] = RcPanic.
 Proof. exact read_command_witness. Qed.
 Print Assumptions C14_read_command_refuted.
+
+(** ... the same inputs in the repaired code *)
+Theorem C14_repaired_inputs :
+  parse_expr_str Fix [] "(bvadd #b01 " = PErr /\
+  parse_expr_str Fix [] "true ;
+" = POk (BVLiteral 1 1) /\
+  parse_expr_str Fix [] "(bvnot |a" = PErr /\
+  read_command Fix [] ["(assert (= a"] = RcErr /\
+  (exists top', read_command Fix [] ["(declare-const |(| Bool)
+"; "(exit)
+"] = RcCmd (CDeclareConst (BVSymbol "(" 1)) top' ["(exit)
+"]) /\
+  (exists top', read_command Fix [] ["(get-unsat-assumptions)
+"] = RcCmd CGetUnsatAssumptions top' []).
+Proof. exact repaired_witness. Qed.
+Print Assumptions C14_repaired_inputs.
 
 (** Non-vacuity: a concrete expression (quoted name, Bool-indexed array, zero-extended Bool,
     signed division) meets the hypotheses of the round trip; the reader's result is computed. *)
@@ -145,12 +249,14 @@ Example C14_example :
   let e := BVEqual (BVSignedDiv (BVSymbol "a b" 4) (BVLiteral 4 0) 4)
                    (BVAdd (BVZeroExt (BVSymbol "c" 1) 3 4) (BVArrayRead (ArraySymbol "m" 1 4) (BVSymbol "c" 1) 4) 4) in
   let top := [("a b", BVSymbol "a b" 4); ("c", BVSymbol "c" 1); ("m", ArraySymbol "m" 1 4)] in
+  forall v : variant,
   wt e = true /\ built e = true /\ idx32 e = true /\
-  parse_expr_toks top (toks_of_sx (ser e false)) = POk (rt e false) /\
-  parse_expr_str top "(= (bvsdiv |a b| #b0000) (bvadd (ite c #b0001 #b0000) (select m c)))" = POk (rt e false).
-Proof. vm_compute. repeat split. Qed.
+  parse_expr_toks v top (toks_of_sx (ser v e false)) = POk (rt e false) /\
+  parse_expr_str v top "(= (bvsdiv |a b| #b0000) (bvadd (ite c #b0001 #b0000) (select m c)))" = POk (rt e false).
+Proof. intros e top v. destruct v; vm_compute; repeat split. Qed.
 
 Example C14_value_example :
-  mv_wf [] example_value /\
+  forall v : variant,
+  mv_wf v [] example_value /\
   exists f, seval (fun _ => None) (mv_sx example_value) = Some (SVArr SoBool (SoBV 8) f) /\ f 0 = 171 /\ f 1 = 3.
 Proof. exact example_value_ok. Qed.
